@@ -30,7 +30,7 @@ type e1Profile struct {
 }
 
 var e1Profiles = map[string]e1Profile{
-	"C11": {prop: "C11", attackWeight: 30, steps: [2]int{30, 50}, concurrent: true, restartPct: 2, quickCases: 400, thoroughCases: 8000,
+	"C11": {prop: "C11", attackWeight: 45, steps: [2]int{30, 50}, concurrent: true, restartPct: 2, quickCases: 400, thoroughCases: 8000,
 		rule: "E1 histories with the harness as both view consumers (gossip reader and state-machine reader each randomly stalled and resumed, round entrances issued while views shift, nil / fully-voted / jumped rounds, replays), judged at the consumer side: per (height, round) strictly increasing versions, proposals and per-target signature sets only grow; when a round the harness ended by nil quorum or by a fully voted round is followed by a later round at the gossip reader, the justifying precommits must have arrived first; at quiescence (no output during 3 x 24 served snapshot requests) the last views each consumer holds equal the mirror's VotingView/CommittingView. Race detector sub-run (a view mutated after delivery is a race between kernel and reader). Non-trivial = distinct histories with >= 1 quiescence comparison and >= 20 received views judged."},
 	"C09": {prop: "C09", attackWeight: 65, steps: [2]int{40, 60}, concurrent: true, restartPct: 2, quickCases: 1000, thoroughCases: 20000,
 		rule: "E1 histories at full hostile width (every height/round offset -3..+3, every key-id length, every commit-proof shape, replays, state-machine entrances and actions), sequential then 2-6 concurrent deliverers, with stalled gossip/state-machine readers; two thirds of the messages go through the shipped AcceptAllValid/DropDuplicate feedback mappers. Monitors: hook Catch on the kernel goroutine and recover around every Handle* call (panic => violation keyed by site), logical livelock bound on HandleProposedHeader's restart label, defined-result and defined-feedback checks, liveness probe (VotingView must answer after every input). Non-trivial = distinct histories with >= 10 hostile messages handled."},
